@@ -16,7 +16,7 @@ NAMES4 = ["a", "b", "", "x;y"]
 
 
 class Workload:
-    def __init__(self, schema, scripts, names, mode="mem", flags=None, tag="g", origin="", also=()):
+    def __init__(self, schema, scripts, names, mode="mem", flags=None, tag="g", origin="", also=(), per_shard=None):
         self.schema = schema
         self.also = list(also)   # further (module, cfg) trace specifications the same traces must satisfy
         self.scripts = scripts
@@ -25,6 +25,7 @@ class Workload:
         self.flags = flags or {}
         self.tag = tag
         self.origin = origin  # which model instance the scripts came from
+        self.per_shard = per_shard   # calls per shard (None = default); smaller for workloads whose records are costly to validate
 
     @property
     def calls(self):
@@ -34,7 +35,7 @@ class Workload:
 def make_shards(workloads, wd, per_shard=2500):
     shards = []
     for wi, w in enumerate(workloads):
-        n = max(1, min(len(w.scripts), math.ceil(w.calls / per_shard)))
+        n = max(1, min(len(w.scripts), math.ceil(w.calls / (w.per_shard or per_shard))))
         parts = vlib.split_scripts(w.scripts, n)
         for i, p in enumerate(parts):
             base = "%s_%d_%s_%s_%d" % (w.tag, wi, w.schema, w.mode, i)
@@ -76,6 +77,7 @@ def run_and_validate(binary, workloads, wd, module="TraceLibrary", cfg=None, wat
                 rej["module"], rej["cfg"] = m2, c2
                 rej["reason"] = "%s: %s" % (m2, rej.get("reason"))
             sh["val"]["rejected"] += v2["rejected"]
+            sh["val"]["kf"] += v2["kf"]
             sh["val"]["tlc_states"] += v2["tlc_states"]
             sh["val"].setdefault("also_accepted", {})
             sh["val"]["also_accepted"][m2] = v2["accepted"]
